@@ -267,6 +267,8 @@ where
         let ghost verbose = self.settings.core_spec().verbose;
         let ghost cs = self.settings.core_spec();
         let ghost p0 = old(self).info.printed();
+        // C03: the iterate on which the figures currently held by `info` were computed (set at each info.update)
+        let ghost mut figs_on = self.variables;
 //@loop 1
             invariant_except_break
                 self.info.status() == SolverStatus::Unsolved,
@@ -290,6 +292,12 @@ where
                 (self.info.iterations() == iter && (verbose ==> self.info.printed().last() == iter))
                     || (alpha == f_zero() && self.info.status() != SolverStatus::MaxIterations),
             decreases (if scaling == ScalingStrategy::PrimalDual { 1int } else { 0int }), max_iter - iter,
+//@after "self.info.update("
+            proof { figs_on = self.variables; }
+//@before "self.info.save_prev_iterate("
+            // C03: what is saved for a later roll-back is a consistent pair: the figures in `info` were computed on
+            // exactly the iterate that is copied into prev_vars (the step is added only afterwards)
+            assert(figs_on == self.variables);
 //@end
 
 //@fn file=src/solver/core/solver.rs in="IPSolverInternals<T, D, V, R, K, C, I, SO, SE> for Solver" name=default_start rules=R1
@@ -307,6 +315,7 @@ where
             final(self).info.printed() == old(self).info.printed(),
             final(self).settings.core_spec() == old(self).settings.core_spec(),
             final(self).variables.dims_spec() == old(self).variables.dims_spec(), final(self).prev_vars.dims_spec() == old(self).prev_vars.dims_spec(),
+            final(self).variables == old(self).variables,   // the iterate itself is only read
 //@end
 //@fn file=src/solver/core/solver.rs in="IPSolverInternals<T, D, V, R, K, C, I, SO, SE> for Solver" name=backtrack_step_to_barrier rules=R1,R2
 //@contract
@@ -314,8 +323,9 @@ where
             final(self).info.printed() == old(self).info.printed(),
             final(self).settings.core_spec() == old(self).settings.core_spec(),
             final(self).variables.dims_spec() == old(self).variables.dims_spec(), final(self).prev_vars.dims_spec() == old(self).prev_vars.dims_spec(),
+            final(self).variables == old(self).variables,   // the iterate itself is only read
 //@loop 1
-            invariant self.variables.dims_spec() == old(self).variables.dims_spec(), self.prev_vars.dims_spec() == old(self).prev_vars.dims_spec(),
+            invariant self.variables == old(self).variables, self.variables.dims_spec() == old(self).variables.dims_spec(), self.prev_vars.dims_spec() == old(self).prev_vars.dims_spec(),
                 self.info.status() == old(self).info.status(), self.info.iterations() == old(self).info.iterations(),
                 self.info.printed() == old(self).info.printed(),
                 self.settings.core_spec() == old(self).settings.core_spec(),
@@ -341,6 +351,7 @@ where
         final(self).info.iterations() == old(self).info.iterations(), final(self).info.printed() == old(self).info.printed(),
         final(self).settings.core_spec() == old(self).settings.core_spec(),
             final(self).variables.dims_spec() == old(self).variables.dims_spec(), final(self).prev_vars.dims_spec() == old(self).prev_vars.dims_spec(),
+            final(self).variables == old(self).variables,   // the iterate itself is only read
         r matches StrategyCheckpoint::Update(s) ==> s == ScalingStrategy::Dual && scaling == ScalingStrategy::PrimalDual,
         r == StrategyCheckpoint::Fail ==> final(self).info.status() == SolverStatus::NumericalError,
         r != StrategyCheckpoint::Fail ==> final(self).info.status() == SolverStatus::Unsolved,
@@ -353,6 +364,7 @@ where
         final(self).info.iterations() == old(self).info.iterations(), final(self).info.printed() == old(self).info.printed(),
         final(self).settings.core_spec() == old(self).settings.core_spec(),
             final(self).variables.dims_spec() == old(self).variables.dims_spec(), final(self).prev_vars.dims_spec() == old(self).prev_vars.dims_spec(),
+            final(self).variables == old(self).variables,   // the iterate itself is only read
         r matches StrategyCheckpoint::Update(s) ==> s == ScalingStrategy::Dual && scaling == ScalingStrategy::PrimalDual,
         r == StrategyCheckpoint::Fail ==> final(self).info.status() == SolverStatus::InsufficientProgress,
         r != StrategyCheckpoint::Fail ==> final(self).info.status() == SolverStatus::Unsolved,
@@ -364,6 +376,7 @@ where
         final(self).info.iterations() == old(self).info.iterations(), final(self).info.printed() == old(self).info.printed(),
         final(self).settings.core_spec() == old(self).settings.core_spec(),
             final(self).variables.dims_spec() == old(self).variables.dims_spec(), final(self).prev_vars.dims_spec() == old(self).prev_vars.dims_spec(),
+            final(self).variables == old(self).variables,   // the iterate itself is only read
         // only NoUpdate or Fail: makes the unreachable!() arm in `solve` dead
         r == StrategyCheckpoint::NoUpdate || r == StrategyCheckpoint::Fail,
         r == StrategyCheckpoint::Fail ==> final(self).info.status() == SolverStatus::NumericalError,
